@@ -1,3 +1,72 @@
-(* C15 placeholder until the proofs are in *)
-From EC Require Import Base.Prelude Coe.Sdo Coe.Run.
-Theorem c15_placeholder : True. Proof. exact I. Qed.
+(* C15 -- SDO transfers deliver exactly the object's bytes, whatever the transfer type. *)
+From EC Require Import Base.Prelude Base.Bytes Wire.Layout Gen.SrcLayouts Coe.Sdo Coe.Server Coe.Run Coe.SdoProofs.
+Local Open Scope N_scope.
+
+(* The device is its out-mailbox queue (up to ten stale telegrams are read away first) and the
+   replies it gives to the requests to come.  Against a conforming server's replies (Coe/Server.v),
+   for every object, index, sub-index, mailbox size and destination size: *)
+
+(* expedited: the 1..4 bytes of the object *)
+Theorem c15_expedited : forall d idx sub ca cap c' data per',
+  (length (d_q d) <= 10)%nat -> d_per d = [rep_expedited c' idx sub data] :: per' ->
+  c' <= 7 -> idx < 65536 -> sub < 256 -> (1 <= length data <= 4)%nat -> (16 <= d_mlen d)%nat ->
+  sdo_read_payload idx sub ca cap d = (Ok data, after d (req_upload (d_counter d) idx sub ca) per').
+Proof. exact read_expedited. Qed.
+Print Assumptions c15_expedited.
+
+(* normal: the whole object out of the initiate response *)
+Theorem c15_normal : forall d idx sub ca cap c' data per',
+  (length (d_q d) <= 10)%nat -> d_per d = [rep_normal c' idx sub (N.of_nat (length data)) data] :: per' ->
+  c' <= 7 -> idx < 65536 -> sub < 256 -> (length data + 16 <= d_mlen d)%nat -> N.of_nat (d_mlen d) < 65536 ->
+  (length data <= cap)%nat ->
+  sdo_read_payload idx sub ca cap d = (Ok data, after d (req_upload (d_counter d) idx sub ca) per').
+Proof. exact read_normal. Qed.
+Print Assumptions c15_normal.
+
+(* segmented: ANY split of the object into an initiate part and non-empty segments that fit the
+   mailbox (incl. segments shorter than 7 bytes) is reassembled to exactly the object *)
+Theorem c15_segmented : forall d idx sub ca cap c' first chunks cs per',
+  (length (d_q d) <= 10)%nat ->
+  d_per d = [rep_normal c' idx sub (N.of_nat (length first + length (concat chunks))) first] :: seg_replies cs false chunks ++ per' ->
+  c' <= 7 -> idx < 65536 -> sub < 256 -> (forall c, In c cs -> c <= 7) -> (length chunks <= length cs)%nat ->
+  chunks <> [] -> Forall (chunk_ok (d_mlen d)) chunks ->
+  (length first + 16 <= d_mlen d)%nat -> N.of_nat (d_mlen d) < 65536 ->
+  (length first + length (concat chunks) <= cap)%nat -> N.of_nat cap < 4294967296 ->
+  exists d', sdo_read_payload idx sub ca cap d = (Ok (first ++ concat chunks), d') /\ d_per d' = per'.
+Proof. exact read_segmented. Qed.
+Print Assumptions c15_segmented.
+
+(* an abort is reported with the device's code, index and sub-index - for every request kind *)
+Theorem c15_abort : forall d req k c' idx' sub' code code' per',
+  (length (d_q d) <= 10)%nat -> d_per d = [rep_abort c' idx' sub' code] :: per' ->
+  c' <= 7 -> idx' < 65536 -> sub' < 256 -> code < 4294967296 -> (16 <= d_mlen d)%nat ->
+  ev enum_CoeAbortCode code = Ok code' ->
+  exchange req k d = (Err (CAborted code' idx' sub'), after d req per').
+Proof. exact exchange_abort. Qed.
+Print Assumptions c15_abort.
+
+(* an emergency message as an emergency error with its code and register *)
+Theorem c15_emergency : forall d req k c' code reg extra per',
+  (length (d_q d) <= 10)%nat -> d_per d = [rep_emergency c' code reg extra] :: per' ->
+  c' <= 7 -> code < 65536 -> reg < 256 -> (16 <= d_mlen d)%nat ->
+  exchange req k d = (Err (CEmergency code reg), after d req per').
+Proof. exact exchange_emergency. Qed.
+Print Assumptions c15_emergency.
+
+(* a response for a different object as an invalid-response error *)
+Theorem c15_other_object : forall d idx sub c' idx' sub' data per' req,
+  (length (d_q d) <= 10)%nat -> d_per d = [rep_expedited c' idx' sub' data] :: per' ->
+  c' <= 7 -> idx' < 65536 -> sub' < 256 -> (length data <= 4)%nat -> (16 <= d_mlen d)%nat ->
+  (idx', sub') <> (idx, sub) ->
+  exchange req (RUpload idx sub) d = (Err (CInvalidResponse idx' sub'), after d req per').
+Proof. exact exchange_other_object. Qed.
+Print Assumptions c15_other_object.
+
+(* the mailbox counter cycles through 1..7, one step per request *)
+Theorem c15_counter : forall c, 1 <= c <= 7 -> 1 <= next_counter c <= 7 /\ Nat.iter 7 next_counter c = c.
+Proof. exact counter_cycle. Qed.
+Print Assumptions c15_counter.
+
+Theorem c15_counter_step : forall req k d, d_counter (snd (exchange req k d)) = next_counter (d_counter d).
+Proof. exact exchange_counter. Qed.
+Print Assumptions c15_counter_step.
